@@ -152,6 +152,7 @@ func writeEvidence(e *engine, prop, tier string, seed int, results []*obligation
 			"A3 Dolev-Yao signatures: a signature verifies only under the key and digest it was made for",
 			"A4 single-threaded semantics (mutexes no-ops, goroutines run at spawn)",
 			"A5 int is 64-bit",
+			"A6 (obligations using a Badger-backed store only) github.com/dgraph-io/badger is an environment stub: a transactional ordered map per directory (Get sees committed data plus own pending writes, Commit atomic, ErrKeyNotFound for missing keys, data survives Close/Open); durability at crash points is not modelled; native replays run the real Badger",
 			"bounds and shapes are those stated in the harness source under /verif/harness; sizes beyond them are outside the claim",
 		},
 	}
